@@ -23,7 +23,7 @@ RULE = ('cases: (a) a valid peer-model prefix that opens and closes streams, the
 ASSUMPTIONS = ['category codes follow DESIGN.md Appendix C; the GOAWAY last-stream-id may or may not include a '
                'stream whose opening frame is itself the violation']
 TIERS = {'quick': {'cases': 8000, 'size': 300},
-         'thorough': {'cases': 300000, 'size': 400}}
+         'thorough': {'cases': 1500000, 'size': 400}}
 
 P, FC, SC, FS, CE, EYC = (wire.PROTOCOL_ERROR, wire.FLOW_CONTROL_ERROR, wire.STREAM_CLOSED, wire.FRAME_SIZE_ERROR,
                           wire.COMPRESSION_ERROR, wire.ENHANCE_YOUR_CALM)
